@@ -300,6 +300,61 @@ func init() {
 			if nMut == 0 {
 				s.Unknown("update/none", "-", "no exported SearchParams method writes the list")
 			}
+			// writers outside the list's own methods: a function that replaces the pairs of the list attached to a URL
+			// (x.searchParams.params = …) either ends with update() on that list or manages that URL's query itself
+			for _, f := range c.P.ModFns {
+				if namedOf(recvType(f)) == "SearchParams" || len(f.Blocks) == 0 {
+					continue
+				}
+				for _, b := range f.Blocks {
+					for i, ins := range b.Instrs {
+						st, ok := ins.(*ssa.Store)
+						if !ok {
+							continue
+						}
+						fa, ok := fieldAddrOf(st.Addr, "SearchParams:params")
+						if !ok {
+							continue
+						}
+						owner, ok := loadOfField(fa.X, "Url:searchParams")
+						if !ok {
+							continue // a list not (yet) reachable from a URL
+						}
+						key := "update/external/" + core.FuncName(f)
+						storesQuery := false
+						for _, b2 := range f.Blocks {
+							for _, in2 := range b2.Instrs {
+								if st2, ok := in2.(*ssa.Store); ok {
+									if fq, ok := fieldAddrOf(st2.Addr, "Url:query"); ok && fq.X == owner {
+										storesQuery = true
+									}
+								}
+							}
+						}
+						if storesQuery {
+							s.OK(key, c.P.Pos(st.Pos()), "the function sets the query of the same URL itself")
+							continue
+						}
+						cut := func(in2 ssa.Instruction) bool {
+							call, ok := in2.(*ssa.Call)
+							if !ok {
+								return false
+							}
+							cl := call.Common().StaticCallee()
+							if cl == nil || len(call.Common().Args) == 0 || !(cl == upd || mustUpdate(cl, upd, 0)) {
+								return false
+							}
+							o2, ok := loadOfField(call.Common().Args[0], "Url:searchParams")
+							return ok && o2 == owner
+						}
+						if ok, r := mustPassBeforeReturn(b, i, cut, nil); ok {
+							s.OK(key, c.P.Pos(st.Pos()), "followed by update() on the same list on every path to a return")
+						} else {
+							s.Bad(key, c.P.Pos(st.Pos()), fmt.Sprintf("the pairs of the list attached to the URL are replaced and the return at %s is reached without update(): the URL's query no longer matches the list", c.P.Pos(r.Pos())))
+						}
+					}
+				}
+			}
 			// update() itself
 			key := "update/(*url.SearchParams).update/store"
 			var store *ssa.Store
@@ -364,6 +419,71 @@ func init() {
 					}
 				}
 				s.Check(len(badConds) == 0, "update/(*url.SearchParams).update/conditions", c.P.Pos(upd.Pos()), "conditioned only on url == nil, query == \"\" and url.query == nil", "write-through is also conditioned on "+strings.Join(badConds, "; "))
+				// polarity: with a URL attached, the store is reached whenever the serialization is non-empty or the URL
+				// has a query (decision over the three conditions above; every other condition is left open)
+				if len(badConds) == 0 && okVal {
+					type val struct{ urlNil, empty, queryNil bool }
+					escapes := func(v val) bool {
+						seen := map[*ssa.BasicBlock]bool{}
+						var walk func(b *ssa.BasicBlock) bool
+						walk = func(b *ssa.BasicBlock) bool {
+							if seen[b] {
+								return false
+							}
+							seen[b] = true
+							for _, ins := range b.Instrs {
+								if ins == ssa.Instruction(store) {
+									return false
+								}
+								if _, ok := ins.(*ssa.Return); ok {
+									return true
+								}
+							}
+							iff, ok := lastIf(b)
+							if !ok {
+								for _, sc := range b.Succs {
+									if walk(sc) {
+										return true
+									}
+								}
+								return false
+							}
+							take := -1 // 0: true edge, 1: false edge
+							if _, trueIsNil, ok := nilTest(iff.Cond, "SearchParams:url"); ok {
+								take = 1
+								if v.urlNil == trueIsNil {
+									take = 0
+								}
+							} else if _, trueIsNil, ok := nilTest(iff.Cond, "Url:query"); ok {
+								take = 1
+								if v.queryNil == trueIsNil {
+									take = 0
+								}
+							} else if bo, ok := iff.Cond.(*ssa.BinOp); ok && (bo.Op == token.EQL || bo.Op == token.NEQ) {
+								take = 1
+								if v.empty == (bo.Op == token.EQL) {
+									take = 0
+								}
+							}
+							if take >= 0 {
+								return walk(b.Succs[take])
+							}
+							return walk(b.Succs[0]) || walk(b.Succs[1])
+						}
+						return walk(upd.Blocks[0])
+					}
+					var missed []string
+					for _, v := range []val{{false, false, false}, {false, false, true}, {false, true, false}} {
+						if escapes(v) {
+							d := "a non-empty serialization"
+							if v.empty {
+								d = "an empty serialization while the URL has a query"
+							}
+							missed = append(missed, d)
+						}
+					}
+					s.Check(len(missed) == 0, "update/(*url.SearchParams).update/polarity", c.P.Pos(store.Pos()), "with a URL attached the store is reached for a non-empty serialization and for an empty one when the URL has a query", "with a URL attached, update() can return without storing "+strings.Join(missed, " / ")+": the URL keeps its stale query")
+				}
 			}
 		},
 	})
